@@ -337,8 +337,9 @@ class Function:
         return set(parent.keys())
 
     def path_to(self, hit, parent):
-        p, cur = [], hit.id
-        while cur is not None:
+        p, cur, seen = [], hit.id, set()
+        while cur is not None and cur not in seen:
+            seen.add(cur)
             p.append(self.insts[cur])
             cur = parent.get(cur)
         return list(reversed(p))
